@@ -34,6 +34,7 @@ type bpmEnv struct {
 	live   map[int]bool
 	virgin map[int]bool
 	dead   bool // pool poisoned by a panic (its mutex may be left locked)
+	raceFirst map[string]interface{}
 }
 
 func newBpmEnv(nf, maxPid int) *bpmEnv {
@@ -133,6 +134,8 @@ func (e *bpmEnv) applicable(op []string) bool {
 		return len(e.held[p]) > 0 && !e.virgin[p]
 	case "FlushPage":
 		return e.live[p]
+	case "FlushRace":
+		return e.live[p] && len(e.held[p]) > 0
 	case "DeallocNoWait":
 		return e.live[p] && len(e.held[p]) <= 1
 	case "LazyDeallocUnpin":
@@ -202,6 +205,39 @@ func (e *bpmEnv) do(op []string) map[string]interface{} {
 			} else {
 				ev["res"] = "notresident"
 			}
+		case "FlushRace":
+			// another user (holding a pin) writes the page and unpins it dirty while FlushPage's disk write is
+			// in progress: the two recorded steps are FlushPage (state seen inside the write) and WriteUnpin
+			fired := false
+			e.md.OnWritePage = func(id int) {
+				if id != p || fired {
+					return
+				}
+				fired = true
+				e.md.OnWritePage = nil
+				first := map[string]interface{}{"ev": "FlushPage", "panic": "", "pid": p, "res": "ok", "race": true}
+				e.project(first)
+				e.raceFirst = first
+				pg := e.held[p][len(e.held[p])-1]
+				e.held[p] = e.held[p][:len(e.held[p])-1]
+				e.ver[p]++
+				pg.WLatch()
+				stamp(pg, e.ver[p])
+				pg.WUnlatch()
+				e.virgin[p] = false
+				e.bpm.UnpinPage(types.PageID(p), true)
+			}
+			ok := e.bpm.FlushPage(types.PageID(p))
+			e.md.OnWritePage = nil
+			if !fired || !ok {
+				ev["ev"] = "FlushPage"
+				ev["res"] = "notresident"
+				return
+			}
+			ev["ev"] = "WriteUnpin"
+			ev["val"] = e.ver[p]
+			ev["res"] = "ok"
+			ev["race"] = true
 		case "DeallocNoWait":
 			e.bpm.DeallocatePage(types.PageID(p), true)
 			e.live[p] = false
@@ -252,7 +288,12 @@ func bpmDriver(args []string) error {
 				if !e.applicable(op) {
 					continue
 				}
-				tw.Emit(e.do(op))
+				ev := e.do(op)
+				if e.raceFirst != nil {
+					tw.Emit(e.raceFirst)
+					e.raceFirst = nil
+				}
+				tw.Emit(ev)
 				if e.dead {
 					break
 				}
@@ -270,8 +311,8 @@ func bpmDriver(args []string) error {
 			return err
 		}
 		rng := rand.New(rand.NewSource(envSeed()))
-		names := []string{"NewPage", "FetchPage", "WriteUnpin", "UnpinClean", "FlushPage", "DeallocNoWait", "LazyDeallocUnpin"}
-		weights := []int{14, 30, 22, 12, 8, 7, 7}
+		names := []string{"NewPage", "FetchPage", "WriteUnpin", "UnpinClean", "FlushPage", "DeallocNoWait", "LazyDeallocUnpin", "FlushRace"}
+		weights := []int{14, 28, 20, 11, 8, 7, 6, 6}
 		for q := 0; q < nseq; q++ {
 			nf, _ := strconv.Atoi(fl[q%len(fl)])
 			e := newBpmEnv(nf, mp)
@@ -322,7 +363,12 @@ func bpmDriver(args []string) error {
 						continue
 					}
 				}
-				tw.Emit(e.do(op))
+				ev := e.do(op)
+				if e.raceFirst != nil {
+					tw.Emit(e.raceFirst)
+					e.raceFirst = nil
+				}
+				tw.Emit(ev)
 			}
 		}
 		return tw.Close()
